@@ -183,6 +183,93 @@ def rand_bytes(rng, n, alpha=None):
     return bytes(rng.choice(alpha) for _ in range(n))
 
 
+# ------------------------------------------------------------------ round 3: what lies behind buf_bound, pool exhaustion
+
+def low_entropy(rng, n, k):
+    """n bytes over k distinct values: very many short matches (about one dictionary entry per 3-4 bytes)"""
+    alpha = rng.sample(range(256), k)
+    return bytes(rng.choice(alpha) for _ in range(n))
+
+
+def tail_fill(rng, fill, m, sep=None):
+    """single-buffer input whose LAST match reaches the end of the data while its source is followed by m
+    bytes equal to <fill>: an encoder that compares behind buf_bound (into the never written part of
+    buf, = the allocator's fill) extends the match past the end of the input"""
+    u = rand_bytes(rng, rng.choice([4, 4, 5, 8, 30, 34]), bytes(b for b in range(256) if b != fill))
+    pre = rand_bytes(rng, rng.choice([0, 1, 7, 100]))
+    mid = rand_bytes(rng, rng.choice([1, 2, len(u) + m, 60]), bytes(b for b in range(256) if b != fill))
+    if sep is not None:
+        mid = mid + sep
+    return pre + u + bytes([fill]) * m + mid + u
+
+
+def tail_lengths(rng, B, n):
+    """lengths of a partial last buffer: tiny, around the first possible match, random, nearly full"""
+    ks = [1, 3, 4, 5, 8, 9, 37, 900, B // 2, B - 5, B - 1]
+    ks += [rng.randrange(10, 3000) for _ in range(n)] + [rng.randrange(3000, B) for _ in range(n)]
+    return ks
+
+
+def stale_tail_inputs(rng, B, n):
+    """multi-buffer inputs whose last buffer is PARTIAL and ends inside data that goes on matching the
+    stale bytes the previous (full) buffer left behind buf_bound.  (kind, bytes) pairs."""
+    out = []
+    # constant data and data whose period divides BUF_LEN: the stale bytes continue every match
+    for k in tail_lengths(rng, B, n):
+        c = rng.randrange(256)
+        out.append(('const', bytes([c]) * (B * rng.choice([1, 1, 2]) + k)))
+    for k in tail_lengths(rng, B, n):
+        per = rng.choice([2, 4, 16, 64, 1024, 4096, 65536])
+        blk = rand_bytes(rng, per)
+        out.append(('period|B', (blk * ((3 * B) // per + 1))[:B * rng.choice([1, 1, 2]) + k]))
+    # the last buffer repeats the head of the previous one: X ++ X[:k] (any compressible X)
+    for k in tail_lengths(rng, B, n):
+        style = rng.randrange(3)
+        if style == 0:
+            X = periodic(rng, B, rng.choice([97, 251, 997, 4099]), rng.choice([0, 50, 400]))
+        elif style == 1:
+            X = (lz_like(rng, 3000, b'abcdefgh') * (B // 3000 + 1))[:B]
+        else:
+            X = low_entropy(rng, B, rng.choice([2, 4, 24]))
+        out.append(('X+X[:k]', (rand_bytes(rng, B, b'pq') if rng.random() < 0.3 else b'') + X + X[:k]))
+    # spliced: the tail ends with a copy of an earlier piece of the tail whose continuation there equals
+    # the stale bytes (no global periodicity)
+    for k in tail_lengths(rng, B, n):
+        if k < 40:
+            continue
+        X = periodic(rng, B, 4099, 3000)
+        T = bytearray(rand_bytes(rng, k))
+        ln = rng.choice([4, 5, 8, 33, 34, 35, 200])
+        m = rng.choice([1, 2, 5, 40])
+        ln = min(ln, (k - m) // 2 - 1)
+        if ln < 4:
+            continue
+        q = rng.randrange(0, k - 2 * ln - m)
+        T[k - ln:k] = X[k - ln:k]
+        T[q:q + ln + m] = X[k - ln:k + m]
+        out.append(('splice', X + bytes(T)))
+    return out
+
+
+def pool_dry_inputs(rng, P, n):
+    """more than TABLE_SIZE dictionary entries in one buffer, THEN re-occurrences (twice and more, with
+    equal and with different continuations) of sequences first seen before the pool ran dry: every
+    back-reference found through a recycled element is exercised"""
+    out = []
+    T = P['TABLE_SIZE']
+    for i in range(n):
+        rnd = rand_bytes(rng, T + rng.choice([1, 7, 300, 1500]))
+        out.append(('dry+lowtail', rnd + pieces_tail(rng, rnd, 12, 1500)))
+    for k, ln in ((24, 150000), (3, 250000), (8, 2 * P['BUF_LEN'] + 777), (16, P['BUF_LEN'] - 1))[:max(1, n)]:
+        out.append(('low%d' % k, low_entropy(rng, ln, k)))
+    return out
+
+
+def pieces_tail(rng, rnd, npieces, count):
+    ps = [rnd[o:o + rng.choice([4, 5, 6, 9, 40])] for o in [rng.randrange(len(rnd) - 50) for _ in range(npieces)]]
+    return b''.join(rng.choice(ps) for _ in range(count))
+
+
 # ------------------------------------------------------------------ decoder streams
 
 def byte_mutants(s, rng=None, max_sub_per_pos=None):
